@@ -409,6 +409,60 @@ var corpus = []prog{
 	}, "deadlock-possible"},
 }
 
+// programs with a construct only the UNREDUCED explorer accepts (blocking select with a send
+// case): its outcome set is compared with the set derived by hand from the Go semantics
+type uprog struct {
+	name string
+	body func()
+	want []string // sorted "outcome|notes"
+}
+
+var unreduced = []uprog{
+	{"blocking-select-send-or-timer", func() {
+		// a slot semaphore with a waiting timer: both the acquisition and the time-out can win
+		sem := vs.NewChan[int](1)
+		sem.Send(0)
+		tick := vs.NewChan[int](1)
+		vs.Go(func() { tick.Send(1) })
+		vs.Go(func() { sem.Recv() })
+		switch vs.Select(vs.SendCase(sem, 1), vs.Case(tick)) {
+		case 0:
+			note("acquired")
+		case 1:
+			note("timeout")
+		}
+	}, []string{"|acquired", "|timeout"}},
+	{"blocking-select-send-waits-for-room", func() {
+		// no timer: the select blocks until the receiver has made room, then sends
+		sem := vs.NewChan[int](1)
+		sem.Send(0)
+		never := vs.NewChan[int](0)
+		fin := vs.NewChan[int](0)
+		vs.Go(func() { note("freed", sem.Recv()); fin.Send(1) })
+		if vs.Select(vs.SendCase(sem, 7), vs.Case(never)) == 0 {
+			note("acquired")
+		}
+		fin.Recv()
+		note("holds", sem.Recv())
+	}, []string{"|acquired,freed0,holds7"}},
+	{"blocking-select-send-unbuffered", func() {
+		// rendezvous through a select: the value arrives exactly once
+		c := vs.NewChan[int](0)
+		never := vs.NewChan[int](0)
+		fin := vs.NewChan[int](0)
+		vs.Go(func() { note("got", c.Recv()); fin.Send(1) })
+		vs.Select(vs.SendCase(c, 5), vs.Case(never))
+		fin.Recv()
+	}, []string{"|got5"}},
+	{"blocking-select-send-no-room-ever", func() {
+		sem := vs.NewChan[int](1)
+		sem.Send(0)
+		never := vs.NewChan[int](0)
+		vs.Select(vs.SendCase(sem, 1), vs.Case(never))
+		note("unreachable")
+	}, []string{"deadlock|"}},
+}
+
 type result struct {
 	Name          string  `json:"name"`
 	PlainExecs    int     `json:"plain_execs"`
@@ -513,6 +567,35 @@ func main() {
 			ok = false
 		}
 		all = append(all, r)
+	}
+	for _, p := range unreduced {
+		if *only != "" && p.name != *only {
+			continue
+		}
+		vs.PureBuf = os.Getenv("VS_PURE_BUF") != ""
+		vs.NeedPure = false
+		got := map[string]bool{}
+		st := vs.ExploreNaive(nil, p.body, func(s *vs.Sched) bool {
+			notes := s.NoteList()
+			sort.Strings(notes)
+			oc := s.Outcome
+			if strings.HasPrefix(oc, "deadlock") {
+				oc = "deadlock"
+			}
+			got[oc+"|"+strings.Join(notes, ",")] = true
+			return true
+		}, false, -1, time.Now().Add(60*time.Second))
+		keys := []string{}
+		for k := range got {
+			keys = append(keys, k)
+		}
+		sort.Strings(keys)
+		agree := st.Closed && strings.Join(keys, ";") == strings.Join(p.want, ";")
+		fmt.Printf("%-34s plain=%-7d(%v) outcomes=%v expected=%v agree=%v (unreduced explorer only)\n", p.name, st.Execs, st.Closed, keys, p.want, agree)
+		all = append(all, result{Name: p.name, PlainExecs: st.Execs, PlainClosed: st.Closed, NaiveOutcomes: len(keys), Agree: agree})
+		if !agree {
+			ok = false
+		}
 	}
 	if *out != "" {
 		b, _ := json.MarshalIndent(all, "", " ")
